@@ -71,7 +71,7 @@ SCHEDS = ["static", "static", "static", "dynamic", "dynamic", "guided",
 
 def plan(tier):
     if tier == "thorough":
-        return {"runs": 40000, "slice": 100, "budget_s": 2400,
+        return {"runs": 40000, "slice": 50, "budget_s": 2400,
                 "slice_timeout_s": 1200}
     return {"runs": 800, "slice": 20, "budget_s": 150,
             "slice_timeout_s": 400}
